@@ -1,6 +1,7 @@
 import I18nVerif.Theorems.C11
 import I18nVerif.Proofs.TablesAll
 import I18nVerif.Model.Pipeline
+import I18nVerif.Proofs.FreshResolve
 /-!
 # C11 (full) — the string table of **every** locale matches the indices stored in its values
 
@@ -17,11 +18,14 @@ has `tbl[i] = its text` (`Spec/Index.lean`); `KeysValid`, `TreeValid i` (`Spec/T
 Hypotheses, and where they come from:
 * `FreshK l.keys` (decidable): no literal of the input locale carries an index yet — what
   `ParsedValue::new` produces (`usize::MAX`, `Model/Parse.lean:220`, `litToPV`); `reduce` keeps it
-  (`C11_reduce_fresh`).  It is a hypothesis on the input of `check_locales_inner`; that
-  `merge_plurals` and foreign-key resolution keep it is not proved here (see notes/C11.md).
+  (`C11_reduce_fresh`).  It is a hypothesis on the input of `check_locales_inner`, and it is
+  **established by the stages before**: `C11_parse_fresh`, `C11_decode_fresh`,
+  `C11_merge_plurals_fresh`, `C11_resolve_fresh`, `C11_resolved_fresh` (so `C11_run_tables_distinct`
+  has no freshness hypothesis).
 * `DistinctLoc l` (decidable) / `NDLoc fuel dl`: the keys of the default locale are distinct at
   every level — locales are `BTreeMap`s; `Decode.value.localeKeys` rejects duplicates.  Only needed
-  for the **default** locale (`C11_locale_tables_nd`).
+  for the **default** locale (`C11_locale_tables_nd`).  Discharged on the pipeline in
+  `Theorems/C11Pipeline.lean` (`C11_pipeline`: well-formed configuration only).
 -/
 namespace I18nVerif.Check
 open I18nVerif Spec.Diagnostics
@@ -36,7 +40,7 @@ theorem C11_insert_noninterference {α} {k k' : Str} (h : k' ≠ k) (v : α) (m 
 /-- an entry of the map after an insertion is the inserted one or was there before -/
 theorem C11_insert_mem {α} {k : Str} {v : α} (m : List (Str × α)) (x : Str × α)
     (h : x ∈ AMap.insert' k v m) : x = (k, v) ∨ x ∈ m :=
-  AMap.mem_insert' m x h
+  AMap.mem_of_mem_insert' m x h
 
 /-- the executable, structural distinctness check implies `NDLoc n` for every depth `n`
     (`reduce` keeps the key names of a group and its distinctness) -/
@@ -161,6 +165,73 @@ theorem C11_pipeline_tables (inp : Pipeline.Input) :
     · exact C11_locale_tables _ _ _ _ _ _ _ _ _ hc (hyp ns (by simp))
     · exact C11_pipeline_tables inp rest ws1 outs1 ws2 hr (fun n hn => hyp n (by simp [hn])) o ho
 
+/-- **The whole pipeline.**  `w` is the world after parsing, `merge_plurals` and foreign-key
+    resolution; if its locales are fresh and have distinct keys, then in the output of
+    `parse_locales` every locale of every namespace has a duplicate-free table that agrees with every
+    index stored in its values (top level and nested `Subkeys` nodes). -/
+theorem C11_run_tables (inp : Pipeline.Input) (w : World) (ws : List Warning) (out : Pipeline.Output)
+    (hr : Pipeline.resolved inp = .ok (w, ws)) (h : Pipeline.run inp = .ok out)
+    (hyp : ∀ ns ∈ w.nss, ∀ l ∈ ns.locales, FreshK l.keys = true ∧ DistinctLoc l = true) :
+    ∀ o ∈ out.nss, ∀ i L, o.locales[i]? = some L →
+      L.strings.Nodup ∧ KeysValid L.strings L.keys ∧ TreeValid i L.strings o.keys := by
+  unfold Pipeline.run at h
+  rw [hr] at h
+  simp only at h
+  split at h
+  · simp at h
+  · simp at h
+  · rename_i outs ws' hc
+    simp only [Res.ok.injEq] at h
+    rw [← h]
+    exact C11_pipeline_tables inp w.nss ws outs ws' hc hyp
+
+/-! ## freshness is established by the stages before `check_locales` -/
+
+/-- `ParsedValue::new` (any input string): no literal of the result carries an index — not even
+    inside the arguments of a foreign key (`FreshS`, which implies `Fresh`) -/
+theorem C11_parse_fresh (s : Str) (v : PV) (h : Parse.new s = .ok v) : FreshS v = true ∧ Fresh v = true :=
+  ⟨new_fresh s v h, FreshS_fresh v (new_fresh s v h)⟩
+
+/-- `Decode.locale` (a whole file): every value of the decoded locale is fresh, at any depth -/
+theorem C11_decode_fresh (name : Str) (j : J) (loc : Loc) (h : Decode.locale name j = .ok loc) :
+    FreshSK loc.keys = true ∧ FreshK loc.keys = true :=
+  ⟨locale_fresh name j loc h, FreshSK_fresh _ (locale_fresh name j loc h)⟩
+
+/-- `Locale::merge_plurals` only regroups values: freshness is kept (any fuel, any depth) -/
+theorem C11_merge_plurals_fresh (orc : Oracle) (locale : Str) (fuel : Nat) (path : KeyPath) (l l' : Loc)
+    (w : List Warning) (h : Plurals.mergePlurals orc locale fuel path l = .ok (l', w))
+    (hf : FreshSK l.keys = true) : FreshSK l'.keys = true :=
+  mergePlurals_fresh orc locale fuel path l l' w h hf
+
+/-- `ParsedValue::populate` only substitutes fresh argument values / selects branches -/
+theorem C11_populate_fresh (orc : Oracle) (locale : Str) (args : List (Str × PV)) (v v' : PV)
+    (ha : FreshSK args = true) (h : Foreign.populate orc locale args v = .ok v') (hv : FreshS v = true) :
+    FreshS v' = true :=
+  populate_fresh orc locale args ha v v' h hv
+
+/-- `resolve_foreign_keys` keeps a fresh world fresh (any fuel) -/
+theorem C11_resolve_fresh (orc : Oracle) (dflt : Str) (fuel : Nat) (paths : List (Str × KeyPath)) (w w' : World)
+    (h : Foreign.resolveAll orc dflt fuel paths w = .ok w')
+    (hw : ∀ ns ∈ w.nss, ∀ l ∈ ns.locales, FreshSK l.keys = true) :
+    ∀ ns ∈ w'.nss, ∀ l ∈ ns.locales, FreshSK l.keys = true :=
+  resolveAll_fresh orc dflt fuel paths w w' h hw
+
+/-- **the input of `check_locales` is always fresh**: after parsing, `merge_plurals` and foreign-key
+    resolution, no literal of any locale of any namespace carries an index -/
+theorem C11_resolved_fresh (inp : Pipeline.Input) (w : World) (ws : List Warning)
+    (h : Pipeline.resolved inp = .ok (w, ws)) : ∀ ns ∈ w.nss, ∀ l ∈ ns.locales, FreshK l.keys = true :=
+  fun ns hn l hl => FreshSK_fresh _ (resolved_fresh inp w ws h ns hn l hl)
+
+/-- **The whole pipeline, freshness discharged.**  The only remaining hypothesis is that the keys
+    of the locales that reach `check_locales` are distinct at every level (`BTreeMap`s). -/
+theorem C11_run_tables_distinct (inp : Pipeline.Input) (w : World) (ws : List Warning) (out : Pipeline.Output)
+    (hr : Pipeline.resolved inp = .ok (w, ws)) (h : Pipeline.run inp = .ok out)
+    (hd : ∀ ns ∈ w.nss, ∀ l ∈ ns.locales, DistinctLoc l = true) :
+    ∀ o ∈ out.nss, ∀ i L, o.locales[i]? = some L →
+      L.strings.Nodup ∧ KeysValid L.strings L.keys ∧ TreeValid i L.strings o.keys :=
+  C11_run_tables inp w ws out hr h
+    (fun ns hn l hl => ⟨C11_resolved_fresh inp w ws hr ns hn l hl, hd ns hn l hl⟩)
+
 /-! ## Examples: the hypotheses are satisfiable by a non-trivial project, and the conclusion is
     what one sees on it -/
 
@@ -175,6 +246,31 @@ example : ∀ l ∈ [en, fr], FreshK l.keys = true ∧ DistinctLoc l = true := b
 /-- a value that already carries an index is not fresh; a locale with a repeated key is not distinct -/
 example : Fresh (.lit (.str ['a'] (some 0))) = false := rfl
 example : DistinctLoc (.mk [] [] [(['k'], .dflt), (['k'], .dflt)] [] 0) = false := by decide
+
+private theorem gkLit (l : Lit) (k : IOL) : getKeysInner 1000000 (.lit l) k true = .ok (.lit l.ty) := by
+  rw [show (1000000 : Nat) = 999999 + 1 from rfl, getKeysInner]; simp
+private theorem isLitM (s : Str) (i : Option Nat) (acc : List Str) :
+    indexStrings 1000000 (.lit (.str s i)) acc = (.lit (.str s (some (pushStr s acc).1)), (pushStr s acc).2) := rfl
+private theorem isLit1 (s : Str) (i : Option Nat) (acc : List Str) :
+    indexStrings 1 (.lit (.str s i)) acc = (.lit (.str s (some (pushStr s acc).1)), (pushStr s acc).2) := rfl
+
+/-- the check succeeds on this project (so the hypotheses of `C11_locale_tables` /
+    `C11_accessors_read_their_text` are jointly satisfiable); what the theorems predict is visible:
+    `fr`'s table is `["yo"]` (de-duplicated), its top-level value and the value moved into the nested
+    node `s` (position 1) both carry index 0, and the nested locales carry the top-level counts -/
+example : ∃ bki ws, checkLocalesInner false 5 [] none [en, fr] [] = .ok
+      ([.mk ['e', 'n'] ['e', 'n'] [(['k'], .lit (.str ['h', 'i'] (some 0))), (['s'], .subkeys none)] [['h', 'i'], ['a']] 2,
+        .mk ['f', 'r'] ['f', 'r'] [(['k'], .lit (.str ['y', 'o'] (some 0))), (['s'], .subkeys none)] [['y', 'o']] 1],
+       bki, ws) ∧
+    nodeAt bki [['s']] = some
+      ([.mk ['s'] ['e', 'n'] [(['t'], .lit (.str ['a'] (some 1)))] [] 2,
+        .mk ['s'] ['e', 'n'] [(['t'], .lit (.str ['y', 'o'] (some 0)))] [] 1],
+       [(['t'], .value (.lit .string) ⟨['e', 'n'], []⟩)]) := by
+  simp [en, fr, sub, checkLocalesInner, checkLocalesInner.go, makeBuilderKeys, makeKeys, makeKeys.shapeOf',
+    Reduce.reduce, Reduce.reduceKeys, gkLit, isLitM, isLit1, pushStr, pushKey, Plurals.pushKey, mergeLocale,
+    mergeKeys, mergeValue, shapeOf, AMap.get?, AMap.insert', AMap.insert, AMap.contains, AMap.strLt, Lit.ty,
+    List.idxOf?, List.findIdx?, List.findIdx?.go, propagate, Loc.keys, Loc.name, Loc.top, Loc.strings, Loc.count]
+  simp [nodeAt, lvAt, AMap.get?]
 
 example : lvAt [(['s'], .subkeys [en, fr] [(['t'], .value (.lit .string) ⟨['e', 'n'], []⟩)])] [['s'], ['t']]
     = some (.value (.lit .string) ⟨['e', 'n'], []⟩) := by
